@@ -17,10 +17,14 @@ def collect(prop, seed, runs, jobs, extra_env=None, sets=()):
         + "".join(f"cfg[{k!r}]={v!r}\n" for k, v in sets) +
         f"e.prepare('{prop}',cfg); b=(e.custom_batch('{prop}',{seed},cfg,{jobs}) if hasattr(e,'custom_batch') else runner.run_batch(e,'{prop}',{seed},cfg,{jobs}))\n"
         "json.dump([[r['i'],r['digest'],r['sig']] for r in b['runs']],sys.stdout)\n")
-    env = dict(os.environ, PYTHONHASHSEED="0", PYTHONDONTWRITEBYTECODE="1")
+    import shutil
+    import tempfile
+    scratch = tempfile.mkdtemp(prefix="verif_scratch_")
+    env = dict(os.environ, PYTHONHASHSEED="0", PYTHONDONTWRITEBYTECODE="1", VERIF_SCRATCH=scratch)
     env.update(extra_env or {})
     out = subprocess.run([sys.executable, "-c", code], cwd=os.path.dirname(os.path.dirname(os.path.dirname(os.path.abspath(__file__)))),
                          env=env, capture_output=True, text=True, check=False)
+    shutil.rmtree(scratch, ignore_errors=True)
     if out.returncode != 0:
         print(out.stderr[-3000:])
         raise SystemExit(2)
